@@ -283,9 +283,9 @@ def tt_cp_apr_mu(  # noqa: PLR0912,PLR0913,PLR0915
         for n in range(N):
             # Make adjustments to entries of M[n] that are violating complementary
             # slackness conditions.
-            # TODO both these zeros were 1 in matlab
+            # (an inadmissible zero has a negative gradient component: Phi > 1)
             if iteration > 0:
-                V = (Phi[n] > 0) & (M.factor_matrices[n] < kappatol)
+                V = (Phi[n] > 1) & (M.factor_matrices[n] < kappatol)
                 if np.any(V):
                     nViolations[iteration] += 1
                     M.factor_matrices[n][V > 0] += kappa
